@@ -286,7 +286,17 @@ def run_property(pid: str, tier: str, seed: int, jobs: int = 16, only: Optional[
         if key in seen:
             continue
         seen.add(key)
-        print(f"KNOWN-FINDING: property={pid} {kf.get('what')}")
+        note = ""
+        w = kf.get("witness")
+        if w:
+            # the listed witness is replayed on the real code on every run: the finding is only
+            # reported as known while it still reproduces
+            fn = os.path.join(ROOT, "replays", f"{pid}_{obn}_known_witness.json")
+            with open(fn, "w") as f:
+                json.dump(dict(property=pid, obligation=obn, param=w["param"], label=kf.get("label_re", ""), models=[w["model"]]), f, indent=1)
+            rep = replay_file(pid, fn)
+            note = " [witness reproduces on the real code]" if rep.get("reproduced") else " [witness NO LONGER reproduces: the entry in known_findings.json is stale]"
+        print(f"KNOWN-FINDING: property={pid} {kf.get('what')}{note}")
 
     xcheck = None
     if tier == "thorough" and os.environ.get("VERIF_XCHECK", "1") != "0":
